@@ -45,6 +45,14 @@ def transform(inst, kind, rng_seed):
     _rename(t, m)
     t['id_type'] = rng.choice(['int', 'int_object'])
     info['map'] = m
+  elif kind in ('rename_a', 'rename_b', 'rename_c'):
+    # other alphabetical orders of the same geos (any order-dependence of a sum shows under some renaming)
+    names = list(RENAME_POOL)
+    rng.shuffle(names)
+    m = {g: names[i] for i, g in enumerate(sorted(inst['geos']))}
+    _rename(t, m)
+    info['map'] = m
+    info['kind'] = 'rename'
   elif kind == 'rename':
     names = list(RENAME_POOL)
     # names whose alphabetical order reverses the original one
@@ -174,7 +182,7 @@ def run(out, tier, model_ok=True):
       inst['params']['iroas'] = 1.0
     # three quarters of the instances are ones that admit at least one design (generation aid only: an invariance
     # comparison of two empty results says little); the rest are taken as they come, errors and empty results included
-    if (rng.random() < 0.15 or i % 3 == 1) and len(inst['geos']) >= 2:
+    if (rng.random() < 0.15 or i % 2 == 1) and len(inst['geos']) >= 2:
       # a share bound the user read off the data: the share of one geo (or of two) as the data object reports it
       try:
         from matched_markets.methodology import tbrmmdata
@@ -193,6 +201,8 @@ def run(out, tier, model_ok=True):
     kinds = ['shuffle', 'shift', 'rename', 'scale', 'scale_tiny', 'int_dates']
     if all(g.isdigit() for g in inst['geos']) or rng.random() < 0.5:
       kinds.append('int_ids')
+    if inst['params'].get('n_designs') == 1000 and inst['params'].get('treatment_share_range') is not None:
+      kinds += ['rename_a', 'rename_b', 'rename_c']
     jobs.append((f'm{i}', inst, kinds))
   with mp.Pool(min(16, os.cpu_count() or 4)) as pool:
     recs = pool.map(run_pair, jobs, chunksize=2)
